@@ -6,6 +6,9 @@ Domain   a generated tree + nested layout + sequence of 1-4 creates (any directo
          matching the scenario's own -i pattern), invoked absolutely, with trailing slash, relatively or as '.',
          and with os.listdir / os.scandir (hence os.walk) returning a generated permutation.  Before every create
          the harness re-applies identical modification times to all media files and directories at both places.
+         Later additions: -sf runs that reach files twice; content of a renamed file copied to further new files; two
+         sibling histories damaged differently (same exit code under every listing order); the relocated copy verified
+         file by file from inside the original tree and with its root typed as '.' and './name'.
 Oracle   byte equality of every file of every ascmhl folder between A and B after every step (same relative
          names); a sealed tree copied to a third generated location verifies there with exit 0.  Finally, with two
          sibling child histories damaged in different ways (31 / 32), verify / diff / info on their parent must end with
